@@ -1,5 +1,7 @@
 use crate::net_utils::TcpDestination;
-use crate::{authentication, datagram_pipe, downstream, icmp_utils, log_utils, pipe, tunnel};
+use crate::{
+    authentication, datagram_pipe, downstream, icmp_utils, log_utils, net_utils, pipe, tunnel,
+};
 use async_trait::async_trait;
 use bytes::Bytes;
 use std::fmt::{Debug, Formatter};
@@ -29,7 +31,7 @@ pub(crate) struct IcmpDatagram {
     pub message: icmp_utils::Message,
 }
 
-#[derive(Debug, Clone)]
+#[derive(Clone)]
 pub(crate) struct TcpConnectionMeta {
     /// Address of a VPN client made the connection request
     pub client_address: IpAddr,
@@ -147,6 +149,24 @@ impl From<&downstream::UdpDatagramMeta> for UdpDatagramMeta {
             source: x.source,
             destination: x.destination,
         }
+    }
+}
+
+impl Debug for TcpConnectionMeta {
+    fn fmt(&self, f: &mut Formatter<'_>) -> std::fmt::Result {
+        // credentials must not reach the log
+        let auth = self.auth.as_ref().map(|x| match x {
+            authentication::Source::Sni(_) => "Sni(scrubbed)",
+            authentication::Source::ProxyBasic(_) => "ProxyBasic(scrubbed)",
+        });
+        f.debug_struct("TcpConnectionMeta")
+            .field("client_address", &self.client_address)
+            .field("destination", &self.destination)
+            .field("auth", &auth)
+            // the first label may be a credentials label whether or not it was used to authenticate
+            .field("tls_domain", &net_utils::scrub_sni(self.tls_domain.clone()))
+            .field("user_agent", &self.user_agent)
+            .finish()
     }
 }
 
